@@ -70,6 +70,15 @@ def to_z3(v):
     raise Unsupported(f"cannot convert {v!r} to a solver term")
 
 
+class _HarnessErrors:
+    """exceptions a harness sub-case treats as "the code no longer has the shape this harness speaks about" (reported per sub-case
+    as undecided): leaving the executable subset, and look-ups of attributes / keys / positions the unchanged code produces"""
+    TYPES = (KeyError, AttributeError, TypeError, IndexError, AssertionError, z3.Z3Exception)
+
+
+HARNESS_ERRORS = (PyvcError,) + _HarnessErrors.TYPES
+
+
 def same_value(a, b):
     """semantic equality of two interpreter values for use in harness obligations: a formula when either side is a solver term,
     a python bool otherwise -- so that a rewritten-but-equal expression in the code (x + 0, int(x), any(...) for a loop)
